@@ -72,6 +72,12 @@ func TestCheck(t *testing.T) {
 		g.WTable = [5]int{3, 3, 3, 4, 6}
 		nNI := 1 + r.Intn(3)
 		g.S.NIs = g.S.NIs[:nNI]
+		if i%6 == 5 && nNI > 1 {
+			// instances whose names differ from the default instance's (and from each other) only
+			// in case: names are exact strings
+			g.S.NIs = append([]string{g.S.Default}, []string{"default", "Default"}[:nNI-1]...)
+			run.Count("cases_with_instance_names_differing_only_in_case", 1)
+		}
 		srv, err := drv.NewServer(g.S.NIs[1:])
 		if err != nil {
 			run.Fatal(err.Error())
@@ -120,6 +126,18 @@ func TestCheck(t *testing.T) {
 			}
 			_, p := x.Do(g.Op())
 			probs = append(probs, p...)
+		}
+		if i%500 == 3 && len(probs) == 0 {
+			// a table far larger than anything a server would put into one response
+			big := 1100 + r.Intn(1600)
+			ni := g.S.NIs[r.Intn(len(g.S.NIs))]
+			for k := 0; k < big && len(probs) == 0; k++ {
+				sp := g.MkOp(spb.AFTOperation_ADD, canon.NH, ni, 0, false)
+				sp.Op.GetNextHop().Index = uint64(10000 + k)
+				_, p := x.Do(sp)
+				probs = append(probs, p...)
+			}
+			run.Count("cases_with_a_table_of_more_than_1000_entries", 1)
 		}
 		probs = append(probs, x.Compare()...)
 		want := x.M.Contents()
